@@ -58,6 +58,15 @@ P = {
   note="Trusted: poriborton's output correctness (third party) — only its domain (uncovered signs) is checked, by reading its pinned source; rustc MIR.",
   technique="dominance/guard analysis with polarity + provenance + decision tables over MIR; dependency table agreement",
   ref="§4 C16"),
+ "C17": dict(
+  text="Structure of the quoter on MIR: its only bypass decision is an empty word, it writes only the two wrapping parts (who-may-write on the "
+       "split value), and its two per-character switch tables map ' and \" to the opening/closing curly quotes and nothing else; in both "
+       "list builders the quoter call is guarded by exactly the smart-quote option, the option test is on every path, the result is stored "
+       "back, and every consumer of the split value (candidate wrapping, emoji closures, selection look-up) is dominated by the option test; "
+       "raw typed-text candidates have no provenance through it. Decides the 'exactly one way' structure; not the list equality for all inputs.",
+  note="Trusted: rustc MIR; the splitter's value-level behaviour (which characters end up in the wrapping parts) is not decided here.",
+  technique="decision-structure extraction + who-may-write frame rule + dominance ordering of guard/consumers over MIR",
+  ref="§4 C17"),
 }
 
 NA_REASON = "rule module not built yet in this round (see DESIGN.md §4 for the planned static rules)"
